@@ -223,15 +223,43 @@ def r6(ctx):
                 if q in ("os.getegid", "os.getgid"):
                     return "EGID"
             return None
-        for uid, gid in ((0, 0), (33, 0), (0, 33), (33, 33)):
+        ROWS = ((0, 0), (33, 0), (0, 33), (33, 33))
+        gkeys = ["%s.%s" % (f.module.name, n_) for n_ in sorted(f.global_names)]
+
+        def spawn(uid, gid, carried):
             ex = Explorer(f, atom_of=atom_of)
-            outs = ex.run(g.entry, {"EUID": 0, "EGID": 0, CFGP + ".uid": uid, CFGP + ".gid": gid, CFGP + ".umask": 0, CFGP + ".worker_tmp_dir": None}, watch={n.id: "chown" for n in ch})
-            got = set("chown" in o.events for o in outs if o.kind in ("return", "raise"))
+            env = {"EUID": 0, "EGID": 0, CFGP + ".uid": uid, CFGP + ".gid": gid, CFGP + ".umask": 0, CFGP + ".worker_tmp_dir": None}
+            env.update(carried)
+            outs = [o for o in ex.run(g.entry, env, watch={n.id: "chown" for n in ch}) if o.kind in ("return", "raise")]
+            return outs, set("chown" in o.events for o in outs)
+        cold = {}
+        for uid, gid in ROWS:
+            outs, got = spawn(uid, gid, {})
+            cold[(uid, gid)] = outs
             want = (uid, gid) != (0, 0)
             ctx.check("C20.R6", got == {want}, key(f, "chown-unless-both-match|%s|%s" % (uid, gid)), site(f, ch[0]),
                       "with the master running as 0:0 and workers configured as %s:%s the heartbeat file is %s (required: %s): a worker that changed only its user or only its group "
                       "cannot update the file and is killed as hung" % (uid, gid, "chowned on some paths only" if len(got) > 1 else ("chowned" if got == {True} else "not chowned"), "chowned" if want else "left alone"),
                       "chown iff an id differs")
+        # module state that survives a spawn (a memo of the decision): the next worker may be spawned under a re-loaded
+        # configuration (HUP with another `user`/`group`), so the decision of spawn B after spawn A is B's own
+        if gkeys:
+            for a in ROWS:
+                for o in cold[a]:
+                    if o.kind != "return":
+                        continue
+                    carried = {k_: o.env[k_] for k_ in gkeys if k_ in o.env}
+                    if not carried:
+                        continue
+                    for b in ROWS:
+                        if b == a:
+                            continue
+                        outs, got = spawn(b[0], b[1], carried)
+                        want = b != (0, 0)
+                        ctx.check("C20.R6", got == {want}, key(f, "chown-after-reload|%s:%s->%s:%s" % (a + b)), site(f, ch[0]),
+                                  "a worker spawned as %s:%s after one spawned as %s:%s (configuration re-loaded in between, master 0:0) has its heartbeat file %s (required: %s): the decision is "
+                                  "remembered in module state [%s] and not re-made for the new ids" % (b[0], b[1], a[0], a[1], "chowned" if got == {True} else ("not chowned" if got == {False} else "chowned on some paths only"),
+                                                                                                          "chowned" if want else "left alone", ", ".join(gkeys)), "chown iff an id differs, in every history")
     for c in calls_to(repo, f, [UTIL + ".chown", "os.chown"]):
         ctx.check("C20.R6", [cfg_attr(a) for a in c.args[1:3]] == ["uid", "gid"], key(f, "chown-args"), site(f, c), "the heartbeat file is not chowned to (cfg.uid, cfg.gid)", "chown(.., cfg.uid, cfg.gid)")
     fb = ctx.fn(repo.func("gunicorn.sock.UnixSocket.bind"))
